@@ -407,12 +407,22 @@ def w_c04d7():
 WITNESSES["C04-D7"] = (w_c04d7, "C04-D7")
 
 
-def classify_c04d7(m, detail, rng, init_inputs) -> bool:
-    """The override divergence is produced by the rewrite pass alone (a rule read an initializer-input's default)."""
+def classify_c04d7(m, api, opts, detail, rng, init_inputs) -> bool:
+    """The override divergence is produced by the rewrite pass (a rule read an initializer-input's default):
+    the very same call with RewritePass disabled passes every C04 clause."""
     if "with overridden initializer-inputs" not in detail:
         return False
-    d = judge_validity(m, "rewrite", {}, rng, init_inputs)
-    return d is not None and "with overridden initializer-inputs" in d
+    import onnxscript.rewriter as rw
+
+    cls = rw.RewritePass
+    orig_call = cls.call
+    cls.call = lambda self, model: ir.passes.PassResult(model, modified=False)
+    try:
+        if api == "rewrite":
+            return True
+        return judge_validity(m, api, opts, rng, init_inputs) is None
+    finally:
+        cls.call = orig_call
 
 
 def load_corpus(name: str):
